@@ -204,7 +204,26 @@ def r2(ctx) -> None:
                     trace.append("flag changed unconditionally")
                     continue
                 t = norm(g.test)
-                compares_value = ".value" in t and any(n in t for n in ("nan_or_equal", "!=", "==", "isclose"))
+                # the comparison must be exact: a tolerance (isclose/allclose/abs(..) < eps) stops the fixed point
+                # early and leaves dependent parameters stale after small optimiser steps
+                compares_value = False
+                for sub in ast.walk(g.test):
+                    involved = ".value" in norm(sub)
+                    if isinstance(sub, ast.Call) and involved:
+                        fn_ = norm(sub.func).split(".")[-1]
+                        if fn_ == "nan_or_equal" and len(sub.args) == 2:
+                            compares_value = True
+                        elif fn_ in ("isclose", "allclose", "approx", "round", "abs", "fabs"):
+                            compares_value = False
+                            trace.append(f"tolerance based comparison `{norm(sub)}`")
+                            break
+                    if isinstance(sub, ast.Compare) and involved and len(sub.ops) == 1:
+                        if isinstance(sub.ops[0], (ast.Eq, ast.NotEq)):
+                            compares_value = True
+                        elif isinstance(sub.ops[0], (ast.Lt, ast.LtE, ast.Gt, ast.GtE)):
+                            compares_value = False
+                            trace.append(f"ordering comparison on values `{norm(sub)}`")
+                            break
                 before_store = all(cfg.exists_path(g, s, exc=False) and not cfg.exists_path(s, g, avoid=[inner], exc=False)
                                    for _, s in vstores)
                 trace.append(f"test `{t}` compares old/new: {compares_value}; precedes the store: {before_store}")
